@@ -503,6 +503,15 @@ func (rp *replayer) sentinelNames() []string {
 }
 
 func (rp *replayer) run(src string) (string, error) {
+	pkgDir := strings.TrimPrefix(rp.g.Fn.Pkg.Pkg.Path(), ModPath+"/")
+	termMu.Unlock()
+	defer termMu.Lock()
+	return runOverlayTest(rp.opts.RepoDir, pkgDir, src)
+}
+
+// runOverlayTest injects an in-package test through go test -overlay (nothing is
+// written under the repo) and returns its output.
+func runOverlayTest(repoDir, pkgDir, src string) (string, error) {
 	scratch := os.Getenv("VP_SCRATCH")
 	if scratch == "" {
 		scratch = fmt.Sprintf("/var/tmp/vp-%d", os.Getpid())
@@ -513,20 +522,17 @@ func (rp *replayer) run(src string) (string, error) {
 	defer os.RemoveAll(dir)
 	testFile := filepath.Join(dir, "zz_vp_replay_test.go")
 	os.WriteFile(testFile, []byte(src), 0o644)
-	pkgDir := strings.TrimPrefix(rp.g.Fn.Pkg.Pkg.Path(), ModPath+"/")
-	target := filepath.Join(rp.opts.RepoDir, pkgDir, "zz_vp_replay_test.go")
+	target := filepath.Join(repoDir, pkgDir, "zz_vp_replay_test.go")
 	ov, _ := json.Marshal(map[string]any{"Replace": map[string]string{target: testFile}})
 	ovFile := filepath.Join(dir, "overlay.json")
 	os.WriteFile(ovFile, ov, 0o644)
 	cmd := exec.Command("go", "test", "-tags", "verif", "-overlay", ovFile, "-vet=off", "-count=1", "-v", "-timeout", "60s", "-run", "^TestVPReplay$", "./"+pkgDir+"/")
-	cmd.Dir = rp.opts.RepoDir
+	cmd.Dir = repoDir
 	cmd.Env = append(os.Environ(), "GOFLAGS=-mod=mod", "GOPROXY=off")
 	var out bytes.Buffer
 	cmd.Stdout = &out
 	cmd.Stderr = &out
-	termMu.Unlock()
 	err := cmd.Run()
-	termMu.Lock()
 	s := out.String()
 	if !strings.Contains(s, "VPR ") {
 		if err != nil {
